@@ -76,7 +76,7 @@ func genC15(g *gen) {
 				}
 				s := pool[g.r.IntN(len(pool))]
 				op := g.callOp(m, s, 0.05, 0.1)
-				for _, p := range op.Plans {
+				for _, p := range plansInOrder(op.Plans) {
 					p.Release = pick(g.r, "", "", "early", "helper", "concurrent")
 					if s.Kind == "cstream" {
 						p.StreamK = g.r.IntN(4)
